@@ -23,7 +23,8 @@ LEAN_MODULES = ["NiftyVerif.Core.Proto", "NiftyVerif.Model.Lanczos", "NiftyVerif
                 "NiftyVerif.Model.RatApprox", "NiftyVerif.Props.C34"]
 DRIVER = "Driver/C34.lean"
 OBLIGATIONS = ["NiftyVerif.C34." + t for t in (
-    "alpha_eq", "beta_eq", "basis_succ", "lanczos_relation", "lanczos_unit_norm", "lanczos_consecutive_orthogonal",
+    "alpha_eq", "beta_eq", "basis_succ", "lanczos_relation", "lanczos_unit_norm", "lanczos_consecutive_orthogonal", "lanczos_orthonormal",
+    "lanczos_tridiagonal",
     "welford_merge", "welford_merge_init", "sylvester_logdet", "elbo_le_evidence", "elbo_tight", "elbo_closed_form",
     "resume_concat", "fullBatches_sum")]
 RULE = ("lanczos case = (SPD matrix of dimension 2..6 (12 thorough) with distinct eigenvalues, start vector, order ≤ n); "
@@ -38,8 +39,7 @@ TRUSTED_BASE = [
     "driver sqrt/log: 2^-99-accurate rational approximations (class T)",
 ]
 ASSUMPTIONS = ["exact arithmetic / no breakdown in the Lanczos theorems (cases within 1e-6 of a breakdown are skipped and counted)",
-               "full orthonormality of the Lanczos basis is checked numerically (oracle); the theorems cover the three-term "
-               "relation, unit norm and orthogonality of consecutive vectors"]
+               "that the Ritz values of T = VᵀAV at order n are the eigenvalues of A is drawn outside Lean"]
 
 
 # ------------------------------------------------------------------------------------------------ generators
